@@ -3,6 +3,7 @@
 from __future__ import annotations
 
 import ast
+import re
 
 from ..cfg import CFG
 from ..effects import Effects
@@ -41,17 +42,25 @@ ASSUMPTIONS = [
 
 NOT_SERIALIZED = {"meta", "_metadata", "_metadata.update()", "meta.update()"}
 # writes that need no flag, with the reason
+# (function, regex over the alpha-stable statement text - locals appear as <Class> or $rank) -> reason
 IDIOMS = {
-    ("RemoveInitializersFromInputsPass.call", "graph.inputs.clear()"):
+    ("RemoveInitializersFromInputsPass.call", r"<Graph>\.inputs\.clear\(\)"):
         "inputs are rebuilt from new_inputs; the content differs only by the initializers counted in `count`",
-    ("RemoveInitializersFromInputsPass.call", "graph.inputs.extend(new_inputs)"):
+    ("RemoveInitializersFromInputsPass.call", r"<Graph>\.inputs\.extend\(\$\d+\)"):
         "second half of the rebuild; see graph.inputs.clear()",
-    ("TopologicalSortPass.call", "model.graph.sort()"): "modified is computed by comparing the node order before and after",
-    ("TopologicalSortPass.call", "function.sort()"): "modified is computed by comparing the node order before and after",
-    ("InlinePass.call", "del model.functions[func_id]"):
+    ("TopologicalSortPass.call", r"model\.graph\.sort\(\)"): "modified is computed by comparing the node order before and after",
+    ("TopologicalSortPass.call", r"<Function>\.sort\(\)"): "modified is computed by comparing the node order before and after",
+    ("InlinePass.call", r"del model\.functions\[\$\d+\]"):
         "_inlined_functions is filled only on the branch that increments inlined_count, which flows into total_inlined",
-    ("InlinePass._inline_calls_in", "self._inlined_functions.add(op_id)"): "bookkeeping of the pass object (not model state)",
+    ("InlinePass._inline_calls_in", r"self\._inlined_functions\.add\(\$\d+\)"): "bookkeeping of the pass object (not model state)",
 }
+
+
+def _idiom(local: str, ckey: str):
+    for (fn, pat), why in IDIOMS.items():
+        if fn == local and re.fullmatch(pat, ckey):
+            return why
+    return None
 
 
 def pass_classes(ctx) -> list[ClassInfo]:
@@ -335,7 +344,12 @@ def check_function(fx: FlagCtx, f: FuncInfo, seen: set, label: str, model_tags: 
                 check_function(fx, g, seen, label, _callee_model_tags(fx, f, expr0, g, model_tags))
         inst = f"{label}: {f.local}: {short(expr0)[:80]}"
         construct = short(expr0)
-        idiom = IDIOMS.get((f.local, construct))
+        # the idiom table is keyed by the alpha-stable text of the statement (locals → <Class> / $rank)
+        from ..canon import Canon
+
+        ckey = Canon(ctx.typer, f).cn(expr0)
+        idiom = _idiom(f.local, ckey)
+        ctx.tables.setdefault("idiom keys seen", []).append(f"{f.local} :: {ckey}") if idiom else None
         if idiom:
             ctx.ob("R2", inst, True, how=f"idiom table: {idiom}")
             continue
